@@ -33,7 +33,10 @@ Pool == << [sel |-> <<Cx1(<<TypeS(A)>>)>>, cu |-> FALSE],
            [sel |-> <<Cx1(<<[k |-> "type", ns |-> [t |-> "pfx", p |-> PFX], name |-> A]>>)>>, cu |-> FALSE],
            [sel |-> <<Cx1(<<[k |-> "not", args |-> <<Cx1(<<Scope>>)>>]>>)>>, cu |-> FALSE],
            [sel |-> <<Cx1(<<Scope>>)>>, cu |-> FALSE],
-           [sel |-> <<Cx2(<<Cust>>, ">", <<TypeS(A)>>), Cx1(<<Scope>>)>>, cu |-> TRUE] >>
+           [sel |-> <<Cx2(<<Cust>>, ">", <<TypeS(A)>>), Cx1(<<Scope>>)>>, cu |-> TRUE],
+           [sel |-> <<Cx1(<<[k |-> "type", ns |-> [t |-> "pfx", p |-> PFX], name |-> A],
+                             [k |-> "not", args |-> <<Cx1(<<[k |-> "checked"]>>)>>]>>)>>, cu |-> FALSE],
+           [sel |-> <<Cx1(<<[k |-> "enabled"]>>), Cx1(<<[k |-> "type", ns |-> [t |-> "pfx", p |-> PFX], name |-> A]>>)>>, cu |-> FALSE] >>
 ASSUME PrintT(ToJson([apipool |-> Pool, nsarg |-> NsArg, cuarg |-> CuArg]))
 
 Init == doc \in {EmptyDoc("doc", FALSE), EmptyDoc("frag", FALSE), EmptyDoc("doc", TRUE)}
